@@ -84,6 +84,12 @@ pub fn stress_case(case: &Value, dispatch: Dispatch, r: &mut Report) {
         for d in deviations.into_iter().take(3) {
             r.finding("stress_parked", &["C18"], d);
         }
+        // default expressions of FieldAdded steps are evaluated per call, in the calling thread
+        let deviations = crate::deep_case::default_calls(threads);
+        *r.counts.entry("default_calls".into()).or_insert(0) += (6 + 2 * threads) as u64;
+        for d in deviations.into_iter().take(3) {
+            r.finding("stress_defaults", &["C18"], d);
+        }
     }
     if panicked > 0 {
         r.finding("stress_panic", &["C18"], json!({"threads_panicked": panicked}));
